@@ -47,8 +47,12 @@ def check_case(case, ctx):
     ctx.count('cases/' + case['cls'])
     nontrivial = False
     with ctx.guard('simulation-raises', case):
+        from ..ref_circuit import snapshot_real
+        snap = snapshot_real(b.c)
         sim = WC.make_sim(r)
         WC.simulate(r, sim)
+        if snapshot_real(b.c) != snap:
+            ctx.violation('circuit-mutated', f'constructing/running the simulator changed the circuit graph; {G.net_text(net)[:400]}', case)
         if case.get('epochs', 1) > 1:
             # the same simulator object is used again with other stimuli (as in batch processing): results must not depend on what
             # an earlier run left in the input slots / signal memory.  Only the last epoch is checked below.
